@@ -12,6 +12,11 @@ COMMON_NOTE = ("Trusted: Coq 8.16.1 kernel (vm_compute used, native_compute not 
                "runtime semantics are modelled as executable Gallina and validated by the correspondence, not verified.")
 
 CLAIMED = {
+    "C09": dict(
+        text="Coq theorems (all lengths, all missing placements, both methods, all threshold combinations): the operational model of spike_test equals the per-point specification (end points UNKNOWN, interior decided from the two neighbours by the average / differential magnitude, FAIL over SUSPECT over GOOD with strict comparisons, MISSING when a needed value is missing); bad method rejected. Tied by correspondence on all series of length<=3 over a 6-symbol alphabet x methods x 16 threshold pairs plus random longer series.",
+        design_ref="DESIGN.md §8 C09",
+        technique="Coq proof (refinement model=spec, decision-list characterisation) + model/implementation correspondence check",
+    ),
     "C03": dict(
         text="Coq theorems (all lengths, all missing placements, all spans): the operational models of gross_range_test and "
              "valid_range_test equal the property's pointwise decision list; FAIL/SUSPECT/GOOD characterised by strict "
